@@ -123,6 +123,24 @@ def jobs(tier):
                 out.append({"program": prog(H, [t, fixed("b", 1), worker("w1", productivity=p1), worker("w2", productivity=2),
                                                 select("s", ["w1", "w2"], 1, "exact"), req("a", "s"), req("b", "w1")]),
                             "families": fam, "family": "work-optional"})
+    # a productivity assigned after the worker was required: the value at solve time counts
+    for p0, p1 in ((3, 1), (1, 2), (2, 0)):
+        for wa in (2, 4):
+            out.append({"program": prog(H, [var("a", work_amount=wa), worker("w1", productivity=p0), req("a", "w1"), dsl.setattr_("w1", "productivity", p1)]),
+                        "families": fam, "family": "work-productivity-assigned-later"})
+            out.append({"program": prog(H, [var("a", work_amount=wa), worker("w1", productivity=p0), worker("w2", productivity=1), select("s", ["w1", "w2"], 1, "min"), req("a", "s"),
+                                            dsl.setattr_("w1", "productivity", p1)]), "families": fam, "family": "work-productivity-assigned-later"})
+    # one task with two alternative selections / two cumulative workers / one of each: every one keeps its own count
+    W4 = [worker(f"w{i}") for i in range(1, 5)]
+    for n1, k1, n2, k2 in ((1, "exact", 1, "exact"), (2, "exact", 1, "min"), (1, "min", 2, "max"), (1, "max", 1, "exact")):
+        out.append({"program": prog(3, [fixed("a", 2), fixed("b", 1)] + W4 + [select("s1", ["w1", "w2"], n1, k1), select("s2", ["w3", "w4"], n2, k2),
+                                                                             req("a", "s1"), req("a", "s2"), req("b", "w1"), req("b", "w3")]),
+                    "families": fam, "family": "two-selections-on-one-task"})
+    out.append({"program": prog(3, [fixed("a", 2), fixed("b", 2), fixed("c", 2), cumul("c1", 2), cumul("c2", 2)] + [req(t, c) for t in "abc" for c in ("c1", "c2")]),
+                "families": fam, "family": "two-cumulative-on-one-task"})
+    out.append({"program": prog(3, [fixed("a", 2), fixed("b", 2), fixed("c", 1), cumul("c1", 2), worker("w1"), worker("w2"), select("s1", ["w1", "w2"], 1, "exact"),
+                                    req("a", "c1"), req("a", "s1"), req("b", "c1"), req("b", "s1"), req("c", "c1")]),
+                "families": fam, "family": "selection-and-cumulative-on-one-task"})
     for wa in (2, 3):
         out.append({"program": prog(H, [fixed("a", 2, work_amount=wa), worker("w1", productivity=1), req("a", "w1")]), "families": fam, "family": "work"})
         out.append({"program": prog(H, [fixed("a", 2, work_amount=wa, optional=True), fixed("b", 1), worker("w1", productivity=2), req("a", "w1"), req("b", "w1")]),
